@@ -55,9 +55,27 @@ def gen_schedule(rng, rules):
     return s
 
 
+def gen_pruned(rng, rules, complement_of=None):
+    """Canonical order and configuration, except that a random half of the rules of ONE sub-phase
+    level is switched off: the dependents of that level keep exactly their canonical earlier-
+    sub-phase predecessors, so their reports must not move (same-sub-phase neighbours and other
+    phases are not part of the documented exception)."""
+    level = rng.choice([2, 2, 2, 1, 3])
+    group = sorted(r[0] for r in rules if r[1] != 0 and not r[3] and r[2] == level and (r[1], r[2]) != (1, 0))
+    off = sorted(u for u in group if rng.random() < 0.5)
+    if complement_of is not None:
+        level = complement_of["pruned_level"]
+        group = sorted(r[0] for r in rules if r[1] != 0 and not r[3] and r[2] == level and (r[1], r[2]) != (1, 0))
+        off = sorted(u for u in group if u not in complement_of["disable"])
+    return {"perm_seed": None, "disable": off, "enable": [], "phase": {}, "passes": [{"all": True, "skip": []}], "pruned_level": level}
+
+
 def gen_desc(seed, nsched):
     rng = substream(seed, "workload")
     label, data = workload.pick_bytes(rng, rng.choice(["small"] * 7 + ["mid"] * 3 + ["big"]))
+    if rng.random() < 0.5:
+        p = rng.choice(sorted(p for p, s in workload.corpus() if os.path.basename(p).startswith("rule_") and p.endswith("_test_input.vhd") and s <= 20000))
+        label, data = os.path.relpath(p, workload.REPO), workload.read(p)
     tags, data = workload.perturb_bytes(rng, data)
     style = rng.choice(workload.STYLES)
     base = None
@@ -65,8 +83,8 @@ def gen_desc(seed, nsched):
         base = {"rule": {"global": {"indent_size": rng.choice([2, 3, 4])}}}
     srng = substream(seed, "schedule")
     schedules = [{"perm_seed": None, "disable": [], "enable": [], "phase": {}, "passes": [{"all": True, "skip": []}, {"all": True, "skip": []}], "report": True}]
-    for _ in range(nsched):
-        schedules.append(gen_schedule(srng, runner.RULES))
+    for k in range(nsched):
+        schedules.append(gen_pruned(srng, runner.RULES) if k % 3 == 2 else gen_schedule(srng, runner.RULES))
     return {
         "property": PROP,
         "engine": "api",
@@ -157,7 +175,16 @@ def evaluate(desc, R):
                     want = [tuple(x) for x in alone.get(u, [])]
                     ref = "alone"
                 else:
-                    if u in cmeta and cmeta[u][0] == ph and u in cran and preds(meta, ran, u) == preds(cmeta, cran, u):
+                    # documented exception: B may depend on the earlier sub-phases of its phase, and
+                    # on nothing else.  Reference = B analysed after exactly its canonical
+                    # predecessors; comparable whenever this pass ran exactly those before B.
+                    dref, dpr = R.get("dep") or {}, R.get("dep_preds") or {}
+                    if u in dref and dref[u] is not None and u in cmeta and cmeta[u][0] == ph and preds(meta, ran, u) == sorted(dpr.get(u, [])):
+                        want = [tuple(x) for x in dref[u]]
+                        ref = "after-canonical-predecessors"
+                    elif u not in dref and u in cmeta and cmeta[u][0] == ph and u in cran and preds(meta, ran, u) == preds(cmeta, cran, u):
+                        # without the (expensive) predecessor reference: the canonical pass is the
+                        # reference; the "pruned" schedules make this comparison bite
                         want = [tuple(x) for x in cV.get(u, [])]
                         ref = "canonical"
                     else:
@@ -240,16 +267,19 @@ def judge(desc, env):
         o = v["observed"]
         if o.get("reader") in located:
             o["writers"] = located[o["reader"]]
-        elif v["class"] == "report-depends-on-schedule" and o.get("reader") and o.get("before") and o.get("ref") == "alone" and done < 4:
+        elif v["class"] == "report-depends-on-schedule" and o.get("reader") and o.get("before") and o.get("ref") in ("alone", "after-canonical-predecessors") and done < 4:
             done += 1
             d = copy.deepcopy(desc)
             d["schedules"] = []
             d["want_alone"] = False
             sch = desc["schedules"][o["schedule"]]
+            pre = (R.get("dep_preds") or {}).get(o["reader"], []) if o.get("ref") != "alone" else []
+            refv = R["alone"].get(o["reader"]) if o.get("ref") == "alone" else (R.get("dep") or {}).get(o["reader"])
             d["localize"] = {
                 "reader": o["reader"],
-                "before": o["before"],
-                "want": [list(x) for x in (R["alone"].get(o["reader"]) or [])],
+                "preds": pre,
+                "before": [x for x in o["before"] if x not in pre],
+                "want": [list(x) for x in (refv or [])],
                 "schedule": {"disable": [], "enable": sorted(set(o["before"] + [o["reader"]])), "phase": sch.get("phase") or {}},
             }
             r2 = env.run(d)
@@ -264,13 +294,24 @@ def judge(desc, env):
     return V, res
 
 
+def breadth_files(seed):
+    """The un-fixed rule test inputs (one shape per rule), in a seeded order."""
+    import random
+
+    fs = sorted(p for p, s in workload.corpus() if os.path.basename(p).startswith("rule_") and p.endswith("_test_input.vhd") and s <= 20000)
+    random.Random(H(seed, "breadth")).shuffle(fs)
+    return fs
+
+
 def plan(tier, seed):
-    n, ns = (150, 6) if tier == "quick" else (2600, 12)
-    jobs = [{"prop": PROP, "mode": "sched", "i": i, "nsched": ns, "seed": H(seed, tier, PROP, "sched", i)} for i in range(n)]
+    n, ns = (100, 4) if tier == "quick" else (2600, 12)
+    jobs = [{"prop": PROP, "mode": "sched", "i": i, "nsched": ns, "want_dep": tier != "quick", "seed": H(seed, tier, PROP, "sched", i)} for i in range(n)]
     nr = 40 if tier == "quick" else 600
     nc = len([p for p, s in workload.corpus() if os.sep + "corpus" + os.sep in p and p.startswith(workload.HERE)])
     jobs += [{"prop": PROP, "mode": "own", "i": i, "nsched": 3, "seed": H(seed, tier, PROP, "own", i)} for i in range(nc)]
     jobs += [{"prop": PROP, "mode": "repeat", "i": i, "nsched": 2, "seed": H(seed, tier, PROP, "repeat", i)} for i in range(nr)]
+    nb = (len(breadth_files(seed)) + 11) // 12  # every un-fixed rule input, in both tiers
+    jobs += [{"prop": PROP, "mode": "breadth", "i": i, "per": 12, "nsched": 0, "seed": seed} for i in range(nb)]
     jobs += common.regress_jobs(PROP, 1)
     return jobs
 
@@ -280,12 +321,67 @@ def strip_volatile(R):
     return R
 
 
+def run_breadth(job, env):
+    """Many files, canonical two-pass check against the per-rule 'alone' reference only."""
+    out = common.JobResult(job)
+    fs = breadth_files(job["seed"])[job["i"] * job["per"] : (job["i"] + 1) * job["per"]]
+    for k, p in enumerate(fs):
+        d = gen_desc(H(job["seed"], "breadth", p), 0)
+        # second schedule: every default-disabled rule switched on as well, canonical order
+        # canonical single pass + a complementary pair of pruned schedules: for every two rules
+        # of the pruned level that fall into different halves, each is once analysed without the other
+        d["schedules"][0]["passes"] = [{"all": True, "skip": []}]
+        prng = substream(H(job["seed"], "pruned", p), "schedule")
+        a = gen_pruned(prng, runner.RULES)
+        d["schedules"].append(a)
+        d["schedules"].append(gen_pruned(prng, runner.RULES, complement_of=a))
+        # the rule this input was written for (tests/<group>/rule_<nnn>_test_input.vhd), analysed
+        # without any neighbour of its own sub-phase level (predecessors untouched)
+        focus = os.path.basename(os.path.dirname(p)) + "_" + os.path.basename(p).split("_")[1]
+        fr = [r for r in runner.RULES if r[0] == focus]
+        if fr and fr[0][1] != 0:
+            ph, sub = fr[0][1], fr[0][2]
+            if sub > min(r[2] for r in runner.RULES if r[1] == ph):
+                d["schedules"].append({"perm_seed": None, "disable": sorted(r[0] for r in runner.RULES if r[1] == ph and r[2] == sub and r[0] != focus and not r[3]), "enable": [focus], "phase": {}, "passes": [{"all": True, "skip": []}], "focus": focus})
+        if job.get("want_dep"):
+            d["want_dep"] = True
+        data = workload.read(p)
+        d["sandbox"] = [workload.sb_entry("x.vhd", data)]
+        d["style"] = None if k % 3 else "jcl"
+        d["base_config"] = None
+        d["meta"].update({"from": os.path.relpath(p, workload.REPO), "size": len(data), "digest": wire.digest(data), "tags": [], "style": d["style"]})
+        d["hashseed_class"] = job.get("class", 0)
+        V, res = judge(d, env)
+        if V is None:
+            out.skipped("file-not-accepted")
+            continue
+        if not isinstance(V, list):
+            out.account(d, res, V, None, nontrivial=False)
+            continue
+        st = res["c06_stats"]
+        out.account(d, res, V, (d["meta"]["digest"], d["style"], "canonical"), nontrivial=st["rules_with_violations_alone"] > 0 and st["analyses"] >= 50)
+        out.stat("rule_reports_compared", st["compared"])
+        out.stat("dependent_comparisons_excused", st["excused"])
+        out.stat("rule_analyses_executed", st["analyses"])
+        out.stat("breadth_files", 1)
+        out.d["steps"] += st["analyses"]
+        for w in st["writers"]:
+            out.probe("analysis_wrote_token_attribute:" + w)
+        if V:
+            out.violation(res.get("c06_followup_desc") or d, V)
+    return out.done()
+
+
 def run_job(job, env):
+    if job["mode"] == "breadth":
+        return run_breadth(job, env)
     out = common.JobResult(job)
     if job["mode"] == "regress":
         d = common.regress_desc(job)
     else:
         d = gen_desc(job["seed"], job["nsched"])
+        if job.get("want_dep") or job["mode"] == "own":
+            d["want_dep"] = True
         if job["mode"] == "own":
             # the handful of hand-written designs in /verif/corpus, each under the default rule set
             own = sorted(p for p, s in workload.corpus() if p.startswith(os.path.join(workload.HERE, "corpus")))
@@ -319,6 +415,8 @@ def run_job(job, env):
     out.d["steps"] += st["analyses"]
     for w in st["writers"]:
         out.probe("analysis_wrote_token_attribute:" + w)
+    for w in R.get("suspects") or []:
+        out.probe("alone_reference_order_sensitive:" + w)
     if job["mode"] == "repeat" and not V:
         # the same descriptor in a pristine process of another hash-seed class
         r2 = env.run(d, alt=True)
